@@ -1,0 +1,69 @@
+// Verification hook (cargo feature `verif-hooks`, off by default; never enabled in shipped builds).
+//
+// A drop-in stand-in for `std::sync::Mutex` that calls an external scheduling hook before a lock
+// is taken and before it is released, so that a controlled scheduler can interleave threads at
+// those points even when the lock is uncontended (an uncontended std Mutex makes no system call).
+// The hook symbol is provided by the verification harness; locking semantics are unchanged.
+
+use std::ops::{Deref, DerefMut};
+use std::sync::{LockResult, PoisonError, TryLockError, TryLockResult};
+
+extern "C" {
+    fn ipcsim_sched_point(kind: u32);
+}
+
+#[inline]
+fn sched_point(kind: u32) {
+    unsafe { ipcsim_sched_point(kind) }
+}
+
+pub struct Mutex<T>(std::sync::Mutex<T>);
+
+pub struct MutexGuard<'a, T>(Option<std::sync::MutexGuard<'a, T>>);
+
+#[allow(dead_code)]
+impl<T> Mutex<T> {
+    pub fn new(value: T) -> Mutex<T> {
+        Mutex(std::sync::Mutex::new(value))
+    }
+
+    pub fn lock(&self) -> LockResult<MutexGuard<'_, T>> {
+        sched_point(4);
+        match self.0.lock() {
+            Ok(guard) => Ok(MutexGuard(Some(guard))),
+            Err(poisoned) => Err(PoisonError::new(MutexGuard(Some(poisoned.into_inner())))),
+        }
+    }
+
+    pub fn try_lock(&self) -> TryLockResult<MutexGuard<'_, T>> {
+        sched_point(4);
+        match self.0.try_lock() {
+            Ok(guard) => Ok(MutexGuard(Some(guard))),
+            Err(TryLockError::WouldBlock) => Err(TryLockError::WouldBlock),
+            Err(TryLockError::Poisoned(poisoned)) => Err(TryLockError::Poisoned(PoisonError::new(
+                MutexGuard(Some(poisoned.into_inner())),
+            ))),
+        }
+    }
+}
+
+impl<'a, T> Drop for MutexGuard<'a, T> {
+    fn drop(&mut self) {
+        sched_point(5);
+        self.0.take();
+    }
+}
+
+impl<'a, T> Deref for MutexGuard<'a, T> {
+    type Target = T;
+
+    fn deref(&self) -> &T {
+        self.0.as_ref().unwrap()
+    }
+}
+
+impl<'a, T> DerefMut for MutexGuard<'a, T> {
+    fn deref_mut(&mut self) -> &mut T {
+        self.0.as_mut().unwrap()
+    }
+}
